@@ -48,6 +48,8 @@ def rand_start(rng, midnight, dom28=False):
     t = D(y, m, d)
     if not midnight:
         t += TD(hours=rng.randrange(0, 24), minutes=rng.choice([0, 0, 15, 30, 59]), seconds=rng.choice([0, 0, 0, 7]))
+        if rng.random() < 0.25:     # microsecond endpoints (rrule drops the microseconds of dtstart: defect F12)
+            t += TD(microseconds=rng.choice([1, 250000, 500000, 999999]))
     return t
 
 
